@@ -109,3 +109,20 @@ package sample
 //@   requires d != nil && d.Config != nil
 //@   requires[validated] d.Config.SampleRate >= 1
 //@   modifies d.sampleRate, d.upperBound, d.Metrics, d.metricNames
+
+// ---- C28/C04: the dynsampler-backed samplers never panic and never report a rate below 1
+//@ contract sample.(*DynamicSampler).GetSampleRate props C28,C04 havoc
+//@   requires d != nil && trace != nil
+//@   ensures[rate-at-least-one] rate >= 1
+//@ contract sample.(*EMADynamicSampler).GetSampleRate props C28,C04 havoc
+//@   requires d != nil && trace != nil
+//@   ensures[rate-at-least-one] rate >= 1
+//@ contract sample.(*TotalThroughputSampler).GetSampleRate props C28,C04 havoc
+//@   requires d != nil && trace != nil
+//@   ensures[rate-at-least-one] rate >= 1
+//@ contract sample.(*EMAThroughputSampler).GetSampleRate props C28,C04 havoc
+//@   requires d != nil && trace != nil
+//@   ensures[rate-at-least-one] rate >= 1
+//@ contract sample.(*WindowedThroughputSampler).GetSampleRate props C28,C04 havoc
+//@   requires d != nil && trace != nil
+//@   ensures[rate-at-least-one] rate >= 1
